@@ -16,6 +16,7 @@ use crate::payload::{RotondaRoute, Update};
 use crate::roto_runtime::types::{Output, Provenance, RotoOutputStream};
 use crate::roto_runtime::{create_runtime, Ctx};
 
+pub use crate::units::bgp_tcp_in::router_handler::verif_filtered_session;
 pub use crate::units::bmp_tcp_in::verif_filter::FilteredRouter;
 
 /// Same types as `rib_unit::unit::RotoFuncPre`, `bgp_tcp_in::unit::RotoFunc`
